@@ -264,6 +264,8 @@ class Locksets:
                 kind, path = self.base_root(f, i)
                 if kind == 'local' or not path:
                     continue
+                if w and deref_of_pointer_field(f, i):
+                    w = False     # ptr_->mutate(): the pointee is written (its own fields are analysed), the pointer field is only read
                 cls = path[0].rsplit('::', 1)[0]
                 if not (cls + '::').startswith(self.shared):
                     continue
@@ -280,3 +282,23 @@ def pm_get(f, i):
             break
         p = pm.get(p)
     return p
+
+
+def deref_of_pointer_field(f, i):
+    """The field access i is immediately dereferenced as a (smart) pointer: `field_->x`, `*field_`, `field_.get()->x`."""
+    pm = f.parent_map()
+    j = i
+    p = pm.get(j)
+    while p is not None and f.nodes[p]['k'] in ('ParenExpr', 'ImplicitCastExpr'):
+        j, p = p, pm.get(p)
+    if p is None:
+        return False
+    pn = f.nodes[p]
+    if pn['k'] == 'CXXOperatorCallExpr' and pn.get('op') in ('->', '*') and len(f.kids(p)) >= 2 and f.kids(p)[1] == j:
+        c = pn.get('callee') or ''
+        return c.startswith(('std::unique_ptr<', 'std::shared_ptr<', 'std::__shared_ptr<', 'std::__shared_ptr_access<', 'std::weak_ptr<'))
+    if pn['k'] == 'MemberExpr' and pn.get('arrow') and f.kids(p) and f.kids(p)[0] == j:
+        return True
+    if pn['k'] == 'UnaryOperator' and pn.get('op') == '*':
+        return (f.nodes[i].get('t') or '').rstrip().endswith('*')
+    return False
